@@ -108,6 +108,10 @@ structure State where
   bank : Ledger := []
   /-- `Params.MaxSupply` (types/params.go:14) -/
   maxSupply : Int := 100000000000000000000
+  /-- `Params.MaxTotalSupply` (deprecated uint64 field 1 of the stored params; `DefaultParams`
+  leaves it 0). It is stored and reported by the params query, but nothing reads it:
+  `GetMaxSupply` (keeper/params.go:38) returns `MaxSupply` alone. -/
+  maxTotalSupply : Int := 0
   /-- `Params.EnableGovernance` -/
   enableGov : Bool := true
   /-- denoms `d` whose marker address `@d` currently holds a plain (non-marker) auth account:
@@ -188,6 +192,9 @@ def adjustCirculation (b : Ledger) (d : Denom) (desired : Int) : Except Err Ledg
 /-- `IncreaseSupply` (marker.go:343) -/
 def increaseSupply (s : State) (m : Marker) (n : Int) : Except Err State := do
   let total := s.bank.supply m.denom + n
+  -- `sdk.NewCoin(denom, GetMaxSupply)` (marker.go:348) panics for a negative configured maximum
+  -- (`Params.Validate` does not look at `max_supply`, so governance can store one)
+  check (0 ≤ s.maxSupply) .negcoin
   check (total ≤ s.maxSupply) .max
   let s1 ← (if m.fixed then do
       let m' := { m with supply := total }
@@ -499,9 +506,9 @@ def govRemoveAdministrator (s : State) (auth : Addr) (d : Denom) (a : Addr) : Ex
   pure (s.setMarker m')
 
 /-- `msgServer.UpdateParams` (msg_server.go:836) -/
-def updateParams (s : State) (auth : Addr) (maxS : Int) (eg : Bool) : Except Err State := do
+def updateParams (s : State) (auth : Addr) (maxS mts : Int) (eg : Bool) : Except Err State := do
   check (auth = GOV) .authority
-  pure { s with maxSupply := maxS, enableGov := eg }
+  pure { s with maxSupply := maxS, maxTotalSupply := mts, enableGov := eg }
 
 /-! ### bank send, begin block, environment -/
 
@@ -564,7 +571,7 @@ inductive Op where
   | govwithdraw (auth : Addr) (d : Denom) (toA : Addr) (cs : Coins)
   | govsetadmin (auth : Addr) (d : Denom) (a : Addr) (ps : List Access)
   | govrmadmin (auth : Addr) (d : Denom) (a : Addr)
-  | params (auth : Addr) (maxS : Int) (eg : Bool)
+  | params (auth : Addr) (maxS mts : Int) (eg : Bool)
   | send (fromA toA : Addr) (d : Denom) (n : Int)
   | beginblock
   | fmint (toA : Addr) (d : Denom) (n : Int)
@@ -591,7 +598,7 @@ def exec (s : State) : Op → Except Err State
   | .govwithdraw au d t cs => govWithdrawEscrow s au d t cs
   | .govsetadmin au d a ps => govSetAdministrator s au d a ps
   | .govrmadmin au d a => govRemoveAdministrator s au d a
-  | .params au mx eg => updateParams s au mx eg
+  | .params au mx mts eg => updateParams s au mx mts eg
   | .send f t d n => bankSend s f t d n
   | .beginblock => beginBlock s
   | .fmint t d n => foreignMint s t d n
